@@ -289,3 +289,8 @@ def run(ctx):
             ctx.ob('c03/display/layout-independent/%d' % n, a == b, 'trace: Display output (literal pieces, element positions, and whether the caller\'s format parameters are forwarded to the elements) does not depend on the layout', 'Display for Mat%d' % n, a, b)
     ctx.floor('roots analysed', done, 344 + 2 * len(gen_programs(ctx.tier)))
     ctx.floor('obligations', ctx.obligations, 2900)
+
+    # the optional mint matrix types are row / column array forms as well: element (i,j) must survive them in both layouts (rule shared with C20)
+    if not ctx.only:
+        from .c20 import mint_rule
+        mint_rule(ctx, prefix='c03', only_kinds=('mfrom', 'minto'))
